@@ -294,7 +294,9 @@ class Signals:
         """
         result = False
         handlers = getattr(obj, self._signal_attr, {}).get(name, [])
-        for _key, callback, user_arg, (weak_args, user_args) in handlers:
+        # Iterate over a snapshot: a callback (or the death of a weak argument)
+        # may connect or disconnect handlers while the signal is being emitted.
+        for _key, callback, user_arg, (weak_args, user_args) in tuple(handlers):
             result |= self._call_callback(callback, user_arg, weak_args, user_args, args)
         return result
 
